@@ -1402,6 +1402,7 @@ class Processor:
                     matches = Searches.search_matches(method, term, ele[attr])
                 else:
                     # Attempt a descendant search
+                    matches = False
                     next_translated_path = translated_path + "[{}]".format(
                         lstidx)
                     next_ancestry = ancestry + [(data, lstidx)]
